@@ -179,7 +179,25 @@ func init() {
 		if jumps {
 			ev.Class("c18:linux-permit-by-jump")
 		}
+		v4text := v4.String()
 		if d.hasRaw && len(d.rawPre)+len(d.rawApp) > 0 {
+			// A further table in front of *filter, in both files; its rules
+			// carry no tag (the oracle looks at chain INPUT only). The raw
+			// file may mark its rule of that table with [APPEND]; a table
+			// may or may not be closed by COMMIT.
+			commit := ""
+			if layout := rapid.IntRange(0, 5).Draw(rt, "natLayout"); layout >= 3 {
+				if layout == 5 {
+					commit = "COMMIT\n"
+				}
+				v4text = "*nat\n:POSTROUTING ACCEPT\n-A POSTROUTING -o eth0 -j MASQUERADE\n" + commit + v4text
+				raw.WriteString("*nat\n:POSTROUTING ACCEPT\n")
+				if rapid.IntRange(0, 2).Draw(rt, "natAppend") != 0 {
+					raw.WriteString("[APPEND]\n")
+					ev.Class("c18:linux-append-in-earlier-table")
+				}
+				raw.WriteString("-A POSTROUTING -o eth1 -j MASQUERADE\n" + commit)
+			}
 			raw.WriteString("*filter\n:INPUT DROP\n")
 			for _, l := range d.rawPre {
 				fmt.Fprintf(&raw, "-A INPUT -s 10.7.%d.%d -j %s\n", b2i(l.permit), l.n, j(l.permit))
@@ -190,9 +208,10 @@ func init() {
 					fmt.Fprintf(&raw, "-A INPUT -s 10.8.%d.%d -j %s\n", b2i(l.permit), l.n, j(l.permit))
 				}
 			}
+			raw.WriteString(commit)
 		}
 		c := &Case{Property: "C18", Family: "linux", Params: map[string]string{}, Files: tool.Files{
-			"device": "", "code/router": v4.String(), "code/router.info": tool.Info("Linux")}}
+			"device": "", "code/router": v4text, "code/router.info": tool.Info("Linux")}}
 		if raw.Len() > 0 {
 			c.Files["code/router.raw"] = raw.String()
 		}
@@ -309,7 +328,7 @@ func init() {
 		default:
 			c.Family = "panos"
 			c.Files = tool.Files{
-				"device": `<config><devices><entry name="localhost.localdomain"><vsys><entry name="vsys1"><display-name>netspoc</display-name></entry></vsys></entry></devices></config>` + "\n",
+				"device":           `<config><devices><entry name="localhost.localdomain"><vsys><entry name="vsys1"><display-name>netspoc</display-name></entry></vsys></entry></devices></config>` + "\n",
 				"code/router":      panFile(panRule("t4x1x1", true, false)),
 				"code/router.raw":  panFile(panRule("r7", true, false)),
 				"code/router.info": tool.Info("PAN-OS")}
